@@ -467,7 +467,7 @@ def gen_proof_case(rng):
     for edge in ((r1 + r2) ** 2, (r1 - r2) ** 2):
         if edge and abs(D2 - edge) < edge * F(1, 5000):
             return gen_proof_case(rng)
-        if not edge and D2 != 0 and cls != "far":
+        if not edge and 0 < D2 < (r1 + r2) ** 2 * F(1, 10 ** 8):   # equal discs almost concentric: d -> 0 in a divisor
             return gen_proof_case(rng)
     return case_dict(t, "proof:" + cls)
 
@@ -479,12 +479,6 @@ def proof_lemma(i, case, v) -> str:
     args = " ".join(gr(x) for x in t)
     return (f"Lemma case_{i} : agrees (overlap_code {args}) {gr(lo)} {gr(hi)}.\n"
             f"Proof. lens_goal. Qed.\n")
-
-
-def _coqc(work, name):
-    p = subprocess.run(["timeout", "600", "coqc", "-Q", str(core.COQ), "FrameModel", f"{name}.v"], cwd=work,
-                       stdout=subprocess.PIPE, stderr=subprocess.STDOUT, text=True)
-    return p.returncode, p.stdout
 
 
 def prove_cases(ctx, out, cases, shard):
